@@ -355,6 +355,32 @@ def r4_eoi(c, facts):
         c.bad(R, 'tokenlist-end', 'TokenList::end is no longer the upper bound of the last token')
 
 
+def push_advance_sites(fn):
+    """[(push terminator, sub-parse lines, offending sub-parse or None)] for every attach site of a production/combinator"""
+    pushes = [(b, t) for b, t in P.call_blocks(fn, 'Vec::push') if 'ParserMatch' in t['args'][1].get('ty', '')]
+    if not pushes:
+        return []
+    idx = MF.defs_index(fn)
+    errs = P.err_blocks(fn)
+    rets = set(fn.return_blocks())
+    out = []
+    for pb, pt in pushes:
+        sl = MF.slice_back(fn, pt['args'][1]['l'], idx, through_calls=False)
+        ks = sorted({bi for _, t, bi in sl['calls'] if 'Cursor' in t['dest'].get('ty', '')})
+        bad = None
+        for kb in ks:
+            kt = fn.mir['blocks'][kb]['term']
+            ph1 = MF.must_derive(fn, kt['target'], {kt['dest']['l']}, 'Cursor', gens={kb}, avoid=errs)
+            if pb not in ph1:
+                continue
+            ph2 = MF.must_derive(fn, pt['target'], ph1[pb], 'Cursor', gens={kb}, avoid=errs)
+            for rb in rets:
+                if rb in ph2 and 0 not in ph2[rb]:
+                    bad = kt['ln']
+        out.append((pt, [fn.mir['blocks'][k]['term']['ln'] for k in ks], bad))
+    return out
+
+
 def r5_push_advance(c, facts):
     """attached => consumed: when a production attaches the node of a sub-parse to its children, the cursor it returns on
     success is derived from the cursor that sub-parse returned (so the token is behind the cursor and cannot be read twice)"""
@@ -363,32 +389,14 @@ def r5_push_advance(c, facts):
     for fn in sorted(facts.fns.values(), key=lambda f: f.qname):
         if not fn.mir or not (fn.qname.startswith('oal_model::grammar::') or fn.qname.startswith('oal_syntax::parser::')):
             continue
-        pushes = [(b, t) for b, t in P.call_blocks(fn, 'Vec::push') if 'ParserMatch' in t['args'][1].get('ty', '')]
-        if not pushes:
-            continue
-        idx = MF.defs_index(fn)
-        errs = P.err_blocks(fn)
-        rets = set(fn.return_blocks())
-        for pb, pt in pushes:
-            sl = MF.slice_back(fn, pt['args'][1]['l'], idx, through_calls=False)
-            ks = sorted({bi for _, t, bi in sl['calls'] if 'Cursor' in t['dest'].get('ty', '')})
-            if not ks:
+        for pt, subs, bad in push_advance_sites(fn):
+            if not subs:
                 c.skip(R, {'fn': fn.qname, 'push_line': pt['ln'], 'reason': 'pushed node does not come from a sub-parse result'})
                 continue
             n += 1
-            bad = None
-            for kb in ks:
-                kt = fn.mir['blocks'][kb]['term']
-                ph1 = MF.must_derive(fn, kt['target'], {kt['dest']['l']}, 'Cursor', gens={kb}, avoid=errs)
-                if pb not in ph1:
-                    continue
-                ph2 = MF.must_derive(fn, pt['target'], ph1[pb], 'Cursor', gens={kb}, avoid=errs)
-                for rb in rets:
-                    if rb in ph2 and 0 not in ph2[rb]:
-                        bad = (kb, kt['ln'])
-            inst = {'fn': fn.qname, 'push_line': pt['ln'], 'sub_parses': [fn.mir['blocks'][k]['term']['ln'] for k in ks]}
+            inst = {'fn': fn.qname, 'push_line': pt['ln'], 'sub_parses': subs}
             if bad:
-                c.bad(R, '%s:pushed-node-not-consumed' % fn.qname, '%s attaches the node parsed at line %d to the tree and can then succeed with a cursor that does not derive from that parse: the token stays in front of the cursor and is read again (a leaf twice)' % (fn.qname, bad[1]), **inst)
+                c.bad(R, '%s:pushed-node-not-consumed' % fn.qname, '%s attaches the node parsed at line %d to the tree and can then succeed with a cursor that does not derive from that parse: the token stays in front of the cursor and is read again (a leaf twice)' % (fn.qname, bad), **inst)
             else:
                 c.ok(R, inst)
     c.floor(R, 'attach sites (Vec<ParserMatch>::push of a sub-parse result)', n, 10)
